@@ -264,6 +264,44 @@ def Re.blankRunsUnbounded : Bool → Re → Bool
   | _, .eps => true
   | _, .wordb => true
 
+/-- the sub-expression of capture group `g` -/
+def Re.group? (g : Nat) : Re → Option Re
+  | .grp i r => if i = g then some r else r.group? g
+  | .seq a b => (a.group? g).orElse fun _ => b.group? g
+  | .alt a b => (a.group? g).orElse fun _ => b.group? g
+  | .rep r _ _ => r.group? g
+  | _ => none
+
+/-- the code points a class accepts, when it is a positive class of characters and small ranges -/
+def CSet.points? (s : CSet) : Option (List Nat) :=
+  if s.neg then none else
+  s.items.foldl (fun acc it => acc.bind fun l => match it with
+    | .ch c => some (l ++ [c])
+    | .range lo hi => if hi - lo < 64 then some (l ++ (List.range (hi - lo + 1)).map (· + lo)) else none
+    | _ => none) (some [])
+
+/-- the language of an expression when it is finite and small (classes of characters, bounded repetition); assertions
+    are ignored (they only remove words) -/
+def Re.finiteLang : Re → Option (List (List Nat))
+  | .eps => some [[]]
+  | .wordb => some [[]]
+  | .set s => s.points?.map fun ps => ps.map fun p => [p]
+  | .seq a b => a.finiteLang.bind fun la => b.finiteLang.map fun lb => la.flatMap fun x => lb.map fun y => x ++ y
+  | .alt a b => a.finiteLang.bind fun la => b.finiteLang.map fun lb => la ++ lb
+  | .grp _ r => r.finiteLang
+  | .rep r mn mx =>
+    match mx with
+    | none => none
+    | some m =>
+      if m > 4 then none else
+      r.finiteLang.map fun l =>
+        let pow : Nat → List (List Nat) := fun k => (List.range k).foldl (fun acc _ => acc.flatMap fun x => l.map fun y => x ++ y) [[]]
+        ((List.range (m + 1)).filter (fun k => mn ≤ k)).flatMap pow
+
+/-- value of a word of ASCII digits -/
+def digitsValue (w : List Nat) : Option Nat :=
+  if w.isEmpty then none else w.foldl (fun acc c => acc.bind fun n => if 48 ≤ c && c ≤ 57 then some (n * 10 + (c - 48)) else none) (some 0)
+
 /-- a regex with its named groups -/
 structure NRe where
   re : Re
@@ -277,5 +315,14 @@ def NRe.cap (n : NRe) (m : RMatch) (name : String) : Option (Nat × Nat) :=
     | some (some s), some (some e) => some (s, e)
     | _, _ => none
   | none => none
+
+/-- every word the named group can capture is a number of at most `bound` (true when the group does not occur) -/
+def NRe.groupAtMost (r : NRe) (name : String) (bound : Nat) : Bool :=
+  match r.names.find? (·.1 = name) with
+  | none => true
+  | some (_, g) =>
+    match (r.re.group? g).bind Re.finiteLang with
+    | none => false
+    | some l => l.all fun w => match digitsValue w with | some n => n ≤ bound | none => false
 
 end SC
